@@ -59,53 +59,62 @@ func clone(sh Shape) Shape {
 	return c
 }
 
-// gc removes struct types no field refers to any more (and structs left without fields, with the fields naming them).
+// gc removes fields whose struct type has no fields left, then every struct type that is no longer reachable from the root.
 func gc(sh Shape) Shape {
-	for changed := true; changed; {
-		changed = false
+	isRef := func(f Field) bool { return f.Kind == "embed" || f.Kind == "pembed" || f.Kind == "nested" }
+	for {
 		empty := map[string]bool{}
 		for _, s := range sh.Structs {
 			if len(s.Fields) == 0 && s.Name != sh.Root {
 				empty[s.Name] = true
 			}
 		}
-		used := map[string]bool{sh.Root: true}
+		removed := false
 		for si := range sh.Structs {
 			var keep []Field
 			for _, f := range sh.Structs[si].Fields {
-				if (f.Kind == "embed" || f.Kind == "pembed" || f.Kind == "nested") && empty[f.Type] {
-					changed = true
+				if isRef(f) && empty[f.Type] {
+					removed = true
 					continue
 				}
 				keep = append(keep, f)
 			}
 			sh.Structs[si].Fields = keep
 		}
-		var walk func(n string)
-		walk = func(n string) {
-			for _, s := range sh.Structs {
-				if s.Name != n {
-					continue
-				}
-				for _, f := range s.Fields {
-					if (f.Kind == "embed" || f.Kind == "pembed" || f.Kind == "nested") && !used[f.Type] {
-						used[f.Type] = true
-						walk(f.Type)
-					}
-				}
-			}
-		}
-		walk(sh.Root)
 		var keepS []Struct
 		for _, s := range sh.Structs {
-			if used[s.Name] && !(len(s.Fields) == 0 && s.Name != sh.Root) {
+			if !empty[s.Name] {
 				keepS = append(keepS, s)
-			} else {
-				changed = changed || used[s.Name]
 			}
 		}
 		sh.Structs = keepS
+		if !removed {
+			break
+		}
 	}
+	used := map[string]bool{sh.Root: true}
+	var walk func(n string)
+	walk = func(n string) {
+		for _, s := range sh.Structs {
+			if s.Name != n {
+				continue
+			}
+			for _, f := range s.Fields {
+				if isRef(f) && !used[f.Type] {
+					used[f.Type] = true
+					walk(f.Type)
+				}
+			}
+		}
+	}
+	walk(sh.Root)
+	var keepS []Struct
+	for _, s := range sh.Structs {
+		if used[s.Name] {
+			keepS = append(keepS, s)
+		}
+	}
+	sh.Structs = keepS
 	return sh
 }
 
@@ -175,8 +184,9 @@ func (sh *Shape) byNameOK(n string) []Field {
 // rename gives every generated struct type of the variant a suffix, consistently in the shape and the request.
 func rename(sh Shape, r Request, suffix string) (Shape, Request) {
 	m := map[string]string{}
+	old := regexp.MustCompile(`(_c\d+)+$`)
 	for _, s := range sh.Structs {
-		m[s.Name] = s.Name + "_" + suffix
+		m[s.Name] = old.ReplaceAllString(s.Name, "") + "_" + suffix
 	}
 	re := regexp.MustCompile(`[A-Za-z_][A-Za-z0-9_]*`)
 	ren := func(t string) string {
